@@ -34,6 +34,12 @@ static Str ref_unescape(const Str &s, bool plus, int mode, uint64_t *malformed, 
     return o;
 }
 
+// the known defect, emulated: a wide character above U+00FF is always written as the triplet of its low byte; everything else as the reference does
+static Str emulate_low_byte_escape(const std::wstring &w, bool plus, bool nb) {
+    static const char *HX = "0123456789ABCDEF"; Str o, run;
+    for (wchar_t c : w) { if ((unsigned long)c > 255) { o += ref_escape(run, plus, nb); run.clear(); unsigned b = (unsigned)c & 0xFF; o += '%'; o += HX[b >> 4]; o += HX[b & 15]; } else run += (char)(unsigned char)c; }
+    return o + ref_escape(run, plus, nb);
+}
 template <class C> struct Runner {
     typedef Api<C> A; FenceBuf in; OutBuf out; Ctx *ctx; Local *lc;
     Runner(Ctx *c, Local *l, size_t ip = 4, size_t op = 8) : in(ip), out(op), ctx(c), lc(l) {}
@@ -115,6 +121,35 @@ void run(Ctx &ctx) {
         for (const char *u : { "a", " ", "\n", "\r", "\r\n", "\xff", "%", "a \n" }) for (int n : L) { if (!ctx.mine(si++) || ctx.expired()) continue; Str s; for (int i = 0; i < n; i++) s += u; if (s.size() > 66000) continue; sa.escape_case(s); sb.escape_case(s); ctx.st.count("stretch_family"); }
         for (const char *u : { "%41", "%0D%0A", "%0d", "%0A", "%", "+", "a", "%4", "%4g%41" }) for (int n : L) { if (!ctx.mine(si++) || ctx.expired()) continue; Str s; for (int i = 0; i < n; i++) s += u; sa.unescape_case(s); sb.unescape_case(s); ctx.st.count("stretch_family"); }
     }
+    // wchar_t only: escaping code points above 255.  The statement's round trip ("restores the original characters") has no exception
+    // for them, but %XX carries one byte: the library escapes the low byte only (open known finding, classified by defect emulation:
+    // the output must be exactly the escape of the low bytes - anything else on these inputs is a fresh violation)
+    if (ctx.worker == 0) {
+        static const wchar_t HI[] = { 0x100, 0x141, 0x20AC, 0x10041 };
+        for (wchar_t x : HI) for (int shape = 0; shape < 3; shape++) for (int plus = 0; plus < 2; plus++) for (int nb = 0; nb < 2; nb++) {
+            std::wstring w; if (shape == 0) w += x; else if (shape == 1) { w += L'a'; w += x; w += L' '; } else { w += x; w += L'\n'; w += x; }
+            Str low; for (wchar_t c : w) low += (char)(unsigned char)(c & 0xFF);
+            std::vector<wchar_t> out(w.size() * 6 + 1, (wchar_t)0x55); int sig; lc.esc_cases++; Str enc = fmt("H`%lx.%d`%d`%d`W", (unsigned long)x, shape, plus, nb);
+            if ((sig = GUARD_ENTER()) != 0) { ctx.violation("", enc, fmt("%s escaping a wide string with a code point above 255", signame(sig))); continue; }
+            wchar_t *end = uriEscapeExW(w.data(), w.data() + w.size(), out.data(), plus, nb); GUARD_LEAVE();
+            if (!end || end < out.data() || end > out.data() + w.size() * 6 || *end != 0) { ctx.violation("", enc, "escape of a wide string: bad terminator / length bound"); continue; }
+            std::wstring esc_w((const wchar_t *)out.data(), (const wchar_t *)end), back = esc_w; back.push_back(0);
+            const wchar_t *e2 = uriUnescapeInPlaceExW(&back[0], plus, URI_BR_DONT_TOUCH); std::wstring rt((const wchar_t *)back.data(), e2);
+            std::wstring want = w; if (nb) { std::wstring t; for (wchar_t c : w) { if (c == L'\n') t += L"\r\n"; else t += c; } want = t; }
+            if (rt != want) { bool emul = narrow<wchar_t>(esc_w) == emulate_low_byte_escape(w, plus, nb); ctx.violation(emul ? "C16-wide-code-point-above-255" : "", enc, fmt("unescape(escape(x)) differs from x for a wide x containing U+%lX (escaped as '%s')", (unsigned long)x, esc(narrow<wchar_t>(esc_w)).c_str())); }
+        }
+    }
+    // wchar_t only: a '%' followed by code points above 255 whose low byte is a hex digit is malformed and stays untouched
+    if (ctx.worker == 0) {
+        static const wchar_t X[] = { 0x141, 0x130, 0x161, 0x10041, 0x430 };
+        for (wchar_t x : X) for (wchar_t y : { (wchar_t)'4', (wchar_t)0x131, (wchar_t)'A', (wchar_t)'g' }) for (int order = 0; order < 2; order++) for (int mode = 0; mode < 4; mode += 3) {
+            std::wstring w = L"a%"; w += order ? y : x; w += order ? x : y; w += L"b%41"; std::wstring want = L"a%"; want += order ? y : x; want += order ? x : y; want += L"bA";
+            std::wstring buf = w; buf.push_back(0); int sig; lc.unesc_cases++;
+            if ((sig = GUARD_ENTER()) != 0) { ctx.violation("", "W`0`0`0`W", fmt("%s unescaping a wide string with code points above 255", signame(sig))); continue; }
+            const wchar_t *end = uriUnescapeInPlaceExW(&buf[0], URI_FALSE, (UriBreakConversion)mode); GUARD_LEAVE();
+            if (!end || std::wstring((const wchar_t *)buf.data(), end) != want) ctx.violation("", fmt("W`%lx.%lx.%d`%d`0`W", (unsigned long)x, (unsigned long)y, order, mode), "a '%' followed by a wide code point above 255 (low byte a hex digit) was taken for a percent-encoding");
+        }
+    }
     if (sw.tripped()) ctx.violation("", "E`a`0`0`A", "AddressSanitizer reported an invalid access");
     ctx.st.count("evaluations", lc.esc_cases + lc.unesc_cases); ctx.st.count("escape_cases", lc.esc_cases); ctx.st.count("unescape_cases", lc.unesc_cases); ctx.st.count("roundtrips", lc.roundtrips);
     ctx.st.count("unescape_shrunk", lc.shrunk); ctx.st.count("malformed_percent_seen", lc.malformed); ctx.st.count("encoded_breaks_seen", lc.breaks);
@@ -124,6 +159,13 @@ void replay(Ctx &ctx, const Str &enc) {
     std::vector<Str> p = split(enc, '`'); if (p.size() < 5) return;
     while (p.size() > 5) { p[1] += "`" + p[2]; p.erase(p.begin() + 2); }      // the string itself may hold a back-tick
     Local lc; int a = atoi(p[2].c_str()), b = atoi(p[3].c_str());
+    if (p[0] == "H") { unsigned long x = 0; int shape = 0; if (sscanf(p[1].c_str(), "%lx.%d", &x, &shape) != 2) return; int plus = a, nb = b; std::wstring w; if (shape == 0) w += (wchar_t)x; else if (shape == 1) { w += L'a'; w += (wchar_t)x; w += L' '; } else { w += (wchar_t)x; w += L'\n'; w += (wchar_t)x; }
+        Str low; for (wchar_t c : w) low += (char)(unsigned char)(c & 0xFF); std::vector<wchar_t> out(w.size() * 6 + 1, (wchar_t)0x55);
+        wchar_t *end = uriEscapeExW(w.data(), w.data() + w.size(), out.data(), plus, nb); if (!end) return; std::wstring esc_w((const wchar_t *)out.data(), (const wchar_t *)end), back = esc_w; back.push_back(0);
+        const wchar_t *e2 = uriUnescapeInPlaceExW(&back[0], plus, URI_BR_DONT_TOUCH); std::wstring rt((const wchar_t *)back.data(), e2); std::wstring want = w; if (nb) { std::wstring t; for (wchar_t c : w) { if (c == L'\n') t += L"\r\n"; else t += c; } want = t; }
+        if (rt != want) { bool emul = narrow<wchar_t>(esc_w) == emulate_low_byte_escape(w, plus, nb); ctx.violation(emul ? "C16-wide-code-point-above-255" : "", enc, "unescape(escape(x)) differs from x for a wide x containing a code point above 255"); } return; }
+    if (p[0] == "W") { unsigned long x = 0, y = 0; int order = 0; if (sscanf(p[1].c_str(), "%lx.%lx.%d", &x, &y, &order) != 3) return; std::wstring w = L"a%"; w += (wchar_t)(order ? y : x); w += (wchar_t)(order ? x : y); w += L"b%41"; std::wstring want = w.substr(0, w.size() - 3) + L"A";
+        std::wstring buf = w; buf.push_back(0); const wchar_t *end = uriUnescapeInPlaceExW(&buf[0], URI_FALSE, (UriBreakConversion)a); if (!end || std::wstring((const wchar_t *)buf.data(), end) != want) ctx.violation("", enc, "a '%' followed by a wide code point above 255 (low byte a hex digit) was taken for a percent-encoding"); return; }
     if (p[4] == "A") { Runner<char> r(&ctx, &lc, 520, 1620); if (p[0] == "E") r.escape_case(p[1], a, b); else r.unescape_case(p[1], a, b); }
     else { Runner<wchar_t> r(&ctx, &lc, 520, 1620); if (p[0] == "E") r.escape_case(p[1], a, b); else r.unescape_case(p[1], a, b); }
 }
@@ -133,6 +175,6 @@ Str coverage(const Ctx &, const Stats &st) {
            jkv("escape_cases", st.get("escape_cases")) + ", " + jkv("unescape_cases", st.get("unescape_cases")) + ", " + jkv("roundtrips", st.get("roundtrips")) + ", " + jkv("unescape_shrunk", st.get("unescape_shrunk")) + ", " +
            jkv("malformed_percent_seen", st.get("malformed_percent_seen")) + ", " + jkv("encoded_breaks_seen", st.get("encoded_breaks_seen")) + ", " + jkv("escape_max_len", st.get("Le")) + ", " + jkv("unescape_max_len", st.get("Lu")) + ", " + jkv("stretch_family_strings", st.get("stretch_family")) + ", " + jsamples(st);
 }
-Check chk = { "C16", "exploration", run, replay, coverage, "line-break conversion on unescape is defined on percent-encoded breaks (%0D%0A, %0D, %0A), as the implementation documents; raw CR/LF characters pass through|wide code points above 255 are outside the statement's quantifier" };
+Check chk = { "C16", "exploration", run, replay, coverage, "line-break conversion on unescape is defined on percent-encoded breaks (%0D%0A, %0D, %0A), as the implementation documents; raw CR/LF characters pass through|wide code points above 255: escaping keeps only the low byte (open known finding C16-wide-code-point-above-255, classified by defect emulation); unescaping is checked to leave them untouched" };
 REGISTER_CHECK(chk);
 }
